@@ -309,6 +309,7 @@ type c17Doc struct {
 func c17(run *ev.Run, tier string) {
 	ngen := ncases(100, 1500, tier)
 	run.Rule = "the schema is obtained by RUNNING the built binary (`nfpm jsonschema`, stdout and -o, the latter also over a pre-existing longer file) and compared byte-for-byte with www/docs/static/schema.json. (1) exhaustive: the set of key paths the schema allows (walked through $ref/properties/items/additionalProperties) must equal the set the strict parser accepts (reflection over the yaml tags of nfpm.Config); each schema path is also exercised dynamically. (2) exhaustive: every documented enumerated value (content types, deb/rpm compressions incl. levels, signature methods and types, version schemas) in a document that the parser accepts and the packager builds must validate. (3) generated valid configurations (C01/C02/C13 generators, incl. setuid/sticky explicit modes, overrides, all format blocks) that parse and build must validate. Validation = harness subset validator (type, properties, additionalProperties, required, enum, pattern, minimum/maximum, items, $ref) and python jsonschema Draft 2020-12 when installed. Also: upper/mixed-case and level-suffixed spellings of enumerated values as probes (accepted by parser and packager => schema must accept), placeholders in schema-constrained settings, repeated list items, explicit empty type, uncommon platforms, optional keys left out; jsonschema -o over longer / same-length outdated files and onto /dev/full. non-trivial = document that uses a format-specific block or an enumerated setting; distinct = document"
+	run.Rule += "; rpm compression levels in other spellings as probes, a ghost entry with a source, a negative ipk alternative priority"
 	bin := nfpmBin(run)
 	if bin == "" {
 		return
